@@ -121,12 +121,18 @@ def cases(tier, seed):
             lb[lv] = b
             out.append({"kind": "layout", "geo": geo, "la": la, "lb": lb, "seed": seed,
                         "sels": [0] if tier == "quick" else [0, 2], "forms": False})
-    # both levels deviate together (named classes)
-    named = [L_id[0], L_id[-1], L_id[5], L_id[7]]
+    # both levels deviate together (quick: named classes; thorough: every canonical layout on every level of both inputs)
+    named = [L_id[0], L_id[-1], L_id[5], L_id[7]] if tier == "quick" else L_id
     for a0, b0, a1, b1 in itertools.product(named, repeat=4):
         if tier == "quick" and not (a0 is named[0] or b0 is named[0]):
             continue
         out.append({"kind": "layout", "geo": geo, "la": [a0, a1], "lb": [b0, b1], "seed": seed, "sels": [0], "forms": False})
+    if tier == "thorough":
+        # a level with four boxes: all 73 x 73 pairs of ordered set partitions
+        L4 = scope.layouts(4, 'id')
+        for a in L4:
+            for b in L4:
+                out.append({"kind": "layout", "geo": geo, "la": [None, a], "lb": [None, b], "seed": seed, "sels": [0], "forms": False, "four": True})
     # every selection form on a few layout pairs
     for a, b in [(L_id[0], L_id[0]), (L_id[5], L_id[7]), (L_id[-1], L_id[0])]:
         out.append({"kind": "layout", "geo": geo, "la": [a, None], "lb": [b, a], "seed": seed,
@@ -204,6 +210,8 @@ def run_case(case, workdir):
         if (audit.snapshot(pa), audit.snapshot(pb)) != before:
             rec.fail("input_modified", {"mismatch": case["name"]}, "")
         return rec.result()
+    if case.get("four"):
+        m["levels"] = [m["levels"][0], m["levels"][1] + [[[0, 0, 0], [1, 1, 1]]]]
     da = dict(m, fields=FA, layout=case["la"], seed=seed)
     db = dict(m, fields=FB, layout=case["lb"], seed=seed + 1, payload="signed")
     pa, ra = build(da, workdir, "pltA")
